@@ -376,5 +376,6 @@ GRAMMAR_PROGRAMS += [
     'def f(a, b, /): pass\ng = lambda x, /: x\ndef h(a: int = 1, /) -> int: ...\n',
     'd = {a: b, **c}\ne = {**a, **b, **c}\nf = {a: b, **c, d: e}\ng = {**a, b: c}\ndef k(*, a, b=1): pass\n',
     'from . import x\nfrom .. import y as z\nfrom ...pkg import w\nr = [a async for a in b]\ns = [c for c in d]\nu = u"kind"\n',
+    'try: pass\nexcept *E as e: pass\nexcept  * (A, B) as f: pass\nexcept \\\n * G as g: pass\ntry: pass\nexcept E as e: pass\nexcept (F):pass\n',
     'x = a if(b)else c\nfor i in(j):pass\ny = not(a)\nz = [k for k in(l)if(m)]\nw = (p)if(q)else(r)\nv = lambda:(s)\nassert(t),(u)\n',
 ]
